@@ -122,13 +122,13 @@ def random_value(rng, sec, key):
     """(value, expected to be documented?) — mostly valid, boundary and invalid values of the right shape"""
     Kc = G.KEYS[(sec, key)]
     r = rng.random()
-    if r < .45: return rng.choice(VALID[(sec, key)])
-    if r < .70:
+    if r < .72: return rng.choice(VALID[(sec, key)])
+    if r < .86:
         pool = G.probe_values(Kc)
         v = rng.choice(pool)
         if isinstance(v, str) and len(v) > 300: v = rng.choice(VALID[(sec, key)])   # keep command lines short
         return v
-    if r < .85: return mutate(rng, rng.choice([x for x in VALID[(sec, key)] if isinstance(x, str)] or ["true"]))
+    if r < .94: return mutate(rng, rng.choice([x for x in VALID[(sec, key)] if isinstance(x, str)] or ["true"]))
     if Kc == "KSafeArea": return rng.choice([rng.randrange(-3, 35), rng.randrange(-3, 35) + rng.random(), str(rng.randrange(-3, 35)), 30, 31, 0, -1])
     return rng.choice([rng.randrange(-2, 40), rng.random() * 40 - 5, None, [], {}, "", True, False, "0", "no", 2 ** 64])
 
@@ -138,11 +138,11 @@ def gen_config(rng, sections):
     cfg = {}
     for sec in sections:
         r = rng.random()
-        if r < .08: cfg[sec] = rng.choice([None, [], 5, "x", True, {}]); continue
+        if r < .05: cfg[sec] = rng.choice([None, [], 5, "x", True, {}]); continue
         keys = [k for (s, k) in VALID if s == sec]
         d = {}
         for k in keys:
-            if rng.random() < .55: d[k] = random_value(rng, sec, k)
+            if rng.random() < .45: d[k] = random_value(rng, sec, k)
         if rng.random() < .1: d["unknown_key"] = 1
         cfg[sec] = d
     if rng.random() < .08: cfg["no_such_section"] = {"a": 1}
